@@ -5,18 +5,19 @@
 set -u
 P="$(realpath "$1")"; shift
 M=/tmp/wt
+V="${VERIF_ROOT:-/verif}"   # which copy of the machinery to try the mutant with
 mkdir -p $M
 while ! mkdir $M/mutant.lock 2>/dev/null; do sleep 5; done
 trap 'rmdir $M/mutant.lock' EXIT
 if [ ! -d $M/mrepo ]; then git -C /repo worktree add -q --detach $M/mrepo HEAD || exit 2; fi
 git -C $M/mrepo checkout -q -- . && git -C $M/mrepo checkout -q --detach "$(git -C /repo rev-parse HEAD)"
 mkdir -p $M/mh
-rsync -a --delete --exclude 'target*' /verif/harness/ $M/mh/
+rsync -a --delete --exclude 'target*' "$V/harness/" $M/mh/
 sed -i "s|/repo/crates|$M/mrepo/crates|g" $M/mh/Cargo.toml
 git -C $M/mrepo apply "$P" || { echo "patch does not apply: $P"; exit 2; }
 export VERIF_HARNESS=$M/mh VERIF_REPO=$M/mrepo VERIF_OUT=$M/mout VERIF_EVID=$M/mevid
 for c in "$@"; do
-  out=$(cd /verif && ./check "$c" --tier quick 2>&1); rc=$?
+  out=$(cd "$V" && ./check "$c" --tier quick 2>&1); rc=$?
   echo "$out" | tail -3 | cut -c1-300
   echo "  -> $(basename "$P") vs $c: exit $rc"
 done
